@@ -1618,8 +1618,8 @@ def _t_eval(target, _t, scope):
                     cur = cur - arg
                 elif op == '*':
                     cur = cur * arg
-                #elif op == '#':
-                #    cur = cur // arg  # TODO: python 2 friendly approach?
+                elif op == '#':
+                    cur = cur // arg
                 elif op == '/':
                     cur = cur / arg
                 elif op == '%':
@@ -1749,7 +1749,7 @@ def _format_t(path, root=T):
                 arg_path = arg.__ops__
                 if any([o in arg_path for o in '+-/%:&|^~_']):
                     formatted_arg = '(' + formatted_arg + ')'
-            prepr.append(' ' + ('**' if op == ':' else op) + ' ')
+            prepr.append(' ' + {':': '**', '#': '//'}.get(op, op) + ' ')
             prepr.append(formatted_arg)
         i += 2
     return "".join(prepr)
